@@ -369,6 +369,7 @@ def direct_driver(lib):
 def c_driver(lib, protos):
     """C++ program that uses ONLY the generated C API (wrap*.h).  protos: {C function name: [(type text, param name), ...]}"""
     out = ["#include \"typeseq.h\"", "#include \"wrapeq.h\"", "#include \"wrapThing.h\"", "#include \"eqshow.h\"", "#include <cstring>", "#include <cstdio>",
+           "extern \"C\" void EQ_ShroudCopyArray(EQ_SHROUD_array *data, void *c_var, size_t c_var_size);",
            "int main() {", "  EQ_Thing self_cap; EQ_Thing_ctor(100, &self_cap);"]
     missing = []
     for k, f in enumerate(lib["funcs"]):
@@ -637,10 +638,16 @@ def specials(rng):
     # fortran_generic variants of a function that also needs the bufferify route (string argument): every variant trims / delimits
     decls += [{"decl": "double tagd(const std::string &name, double arg)",
                "fortran_generic": [{"decl": "(const std::string &name, float arg)"}, {"decl": "(const std::string &name, double arg)"}]}]
+    # a struct passed by const reference, by reference (changed by the callee), by value and by pointer
+    decls += [{"decl": "struct Pt { int x; double y; };"}, {"decl": "int pt_cref(const Pt &p)"}, {"decl": "void pt_scale(Pt &p +intent(inout), int k)"},
+              {"decl": "int pt_val(Pt p)"}, {"decl": "int pt_ptr(const Pt *p)"}]
+    # a vector the library resizes: the caller's allocatable array takes the new extent (grow and shrink)
+    decls += [{"decl": "void vgrow(std::vector<int> &arg +intent(inout)+deref(allocatable), int extra)"}]
     decls += [{"decl": "int labelv(std::string name)"}, {"decl": "int labelv(bool flag)"}]          # the same with the string passed by value
     # a const method whose class ALSO has a non-const overload that is not wrapped: the wrapper must call through a pointer to const
     mdecls = [{"decl": "int addmul(int a, int b = 2)"}, {"decl": "int peekc() const"}]
-    hpp = ["int total_length(const std::vector<std::string> &names);", "int label(const std::string &name);", "int label(bool flag);", "int labelv(std::string name);", "int labelv(bool flag);", "double tagd(const std::string &name, double arg);",
+    hpp = ["int total_length(const std::vector<std::string> &names);", "int label(const std::string &name);", "int label(bool flag);", "int labelv(std::string name);", "int labelv(bool flag);", "void vgrow(std::vector<int> &arg, int extra);", "struct Pt { int x; double y; };",
+           "int pt_cref(const Pt &p);", "void pt_scale(Pt &p, int k);", "int pt_val(Pt p);", "int pt_ptr(const Pt *p);", "double tagd(const std::string &name, double arg);",
            "int defs(int a, int b = 10, int c = 100);", "double defd(double x, double y = 0.0);",
            "void eq_trace_twice(double v);",
            "template<typename T> T twice(T v) { eq_trace_twice((double)v); return (T)(v + v); }",
@@ -661,6 +668,12 @@ def specials(rng):
            'for (size_t i = 0; i < names.size(); ++i) { std::cout << "[" << names[i] << "]"; t += (int)names[i].size(); } std::cout << ")\\n"; return t; }',
            'int label(const std::string &name) { std::cout << "callee label(string [" << name << "])\\n"; return 100 + (int)name.size(); }',
            'double tagd(const std::string &name, double arg) { std::cout << "callee tagd([" << name << "],"; show(arg); std::cout << ")\\n"; return arg + (double)name.size(); }',
+           'int pt_cref(const Pt &p) { std::cout << "callee pt_cref(" << p.x << ","; show(p.y); std::cout << ")\\n"; return p.x * 10; }',
+           'void pt_scale(Pt &p, int k) { std::cout << "callee pt_scale(" << p.x << ","; show(p.y); std::cout << "," << k << ")\\n"; p.x *= k; p.y *= k; }',
+           'int pt_val(Pt p) { std::cout << "callee pt_val(" << p.x << ","; show(p.y); std::cout << ")\\n"; return p.x + 1; }',
+           'int pt_ptr(const Pt *p) { std::cout << "callee pt_ptr(" << p->x << ","; show(p->y); std::cout << ")\\n"; return p->x + 2; }',
+           'void vgrow(std::vector<int> &arg, int extra) { std::cout << "callee vgrow(n=" << arg.size() << ",extra=" << extra << ")\\n"; '
+           'if (extra >= 0) { for (int i = 0; i < extra; ++i) arg.push_back(100 + i); } else { arg.resize(arg.size() + extra); } for (size_t i = 0; i < arg.size(); ++i) arg[i] += 1; }',
            'int labelv(std::string name) { std::cout << "callee labelv(string [" << name << "])\\n"; return 200 + (int)name.size(); }',
            'int labelv(bool flag) { std::cout << "callee labelv(bool " << (flag ? 1 : 0) << ")\\n"; return flag ? 3 : 2; }',
            'int label(bool flag) { std::cout << "callee label(bool " << (flag ? 1 : 0) << ")\\n"; return flag ? 1 : 0; }',
@@ -708,6 +721,20 @@ def specials(rng):
     tg = rng.choice(["alpha", "x y", ""])
     direct += dshow("tagd_f", "tagd(std::string(%s), 1.5)" % cstr(tg), "double") + dshow("tagd_d", "tagd(std::string(%s), -2.25)" % cstr(tg), "double")
     cdrv += dshow("tagd_f", "EQ_tagd(%s, 1.5)" % cstr(tg), "double") + dshow("tagd_d", "EQ_tagd(%s, -2.25)" % cstr(tg), "double")
+    px, pk = rng.choice([3, -4, 11]), rng.choice([2, 3])
+    direct += ["    { Pt sp_p = {%d, 1.5};" % px] + dshow("pt_cref", "pt_cref(sp_p)") + dshow("pt_val", "pt_val(sp_p)") + dshow("pt_ptr", "pt_ptr(&sp_p)") + \
+        ["    pt_scale(sp_p, %d); eq_begin(\"pt_scale\"); eq_int(sp_p.x); eq_double(sp_p.y); eq_end(); }" % pk]
+    cdrv += ["    { EQ_pt sp_p = {%d, 1.5};" % px] + dshow("pt_cref", "EQ_pt_cref(&sp_p)") + dshow("pt_val", "EQ_pt_val(sp_p)") + dshow("pt_ptr", "EQ_pt_ptr(&sp_p)") + \
+        ["    EQ_pt_scale(&sp_p, %d); eq_begin(\"pt_scale\"); eq_int(sp_p.x); eq_double(sp_p.y); eq_end(); }" % pk]
+    vg1, vg2 = rng.choice([1, 2, 4]), rng.choice([-1, -2, -3])
+    direct += ["    { std::vector<int> sp_v = {1, 2, 3};"]
+    cdrv += ["    { int sp_v[16] = {1, 2, 3}; long sp_n = 3;"]
+    for tag, ex in (("vgrow", vg1), ("vshrink", vg2)):
+        direct += ["      vgrow(sp_v, %d); eq_begin(\"%s\"); eq_int((long)sp_v.size()); for (size_t i = 0; i < sp_v.size(); ++i) eq_int(sp_v[i]); eq_end();" % (ex, tag)]
+        cdrv += ["      { EQ_SHROUD_array sp_d; EQ_vgrow_bufferify(sp_v, sp_n, &sp_d, %d); sp_n = (long)sp_d.size; EQ_ShroudCopyArray(&sp_d, sp_v, (size_t)sp_n);" % ex,
+                 "        eq_begin(\"%s\"); eq_int(sp_n); for (long i = 0; i < sp_n; ++i) eq_int(sp_v[i]); eq_end(); }" % tag]
+    direct += ["    }"]
+    cdrv += ["    }"]
     direct += dshow("labelv_s", "labelv(std::string(%s))" % cstr(lab)) + dshow("labelv_b", "labelv(false)")
     cdrv += dshow("labelv_s", "EQ_labelv_0((char *)%s)" % cstr(lab)) + dshow("labelv_b", "EQ_labelv_1(false)")
     direct += dshow("tlen", "total_length(std::vector<std::string>{%s})" % ", ".join(cstr(x) for x in sv))
@@ -748,6 +775,18 @@ def specials(rng):
     fbody += ["    sp_tg = %s" % fstr(tg)]
     fbody += ["    sp_d = tagd(sp_tg, 1.5_C_FLOAT)"] + fshow("tagd_f", f_show("double", "sp_d"))
     fbody += ["    sp_d = tagd(sp_tg, -2.25_C_DOUBLE)"] + fshow("tagd_d", f_show("double", "sp_d"))
+    fdecl += ["    type(pt) :: sp_pt"]
+    fbody += ["    sp_pt%%x = %d_C_INT" % px, "    sp_pt%y = 1.5_C_DOUBLE"]
+    fbody += ["    sp_i = pt_cref(sp_pt)"] + fshow("pt_cref", f_show("int", "sp_i"))
+    fbody += ["    sp_i = pt_val(sp_pt)"] + fshow("pt_val", f_show("int", "sp_i"))
+    fbody += ["    sp_i = pt_ptr(sp_pt)"] + fshow("pt_ptr", f_show("int", "sp_i"))
+    fbody += ["    call pt_scale(sp_pt, %d_C_INT)" % pk, "    call eq_begin(\"pt_scale\"//C_NULL_CHAR)", "    call eq_int(int(sp_pt%x, C_LONG))",
+              "    call eq_double(sp_pt%y)", "    call eq_end()"]
+    fdecl += ["    integer(C_INT), allocatable :: sp_vg(:)"]
+    fbody += ["    allocate(sp_vg(3))", "    sp_vg = [1_C_INT, 2_C_INT, 3_C_INT]"]
+    for tag, ex in (("vgrow", vg1), ("vshrink", vg2)):
+        fbody += ["    call vgrow(sp_vg, %d_C_INT)" % ex, "    call eq_begin(\"%s\"//C_NULL_CHAR)" % tag, "    call eq_int(int(size(sp_vg), C_LONG))",
+                  "    do sp_i = 1, size(sp_vg)", "        call eq_int(int(sp_vg(sp_i), C_LONG))", "    end do", "    call eq_end()"]
     fbody += ["    sp_i = labelv(%s)" % fstr(lab)] + fshow("labelv_s", f_show("int", "sp_i"))
     fbody += ["    sp_i = labelv(.false.)"] + fshow("labelv_b", f_show("int", "sp_i"))
     fbody += ["    sp_sv(%d) = %s" % (k + 1, fstr(x.ljust(svw))) for k, x in enumerate(sv)]
